@@ -41,3 +41,18 @@ def classify(e, w, h):
     if m and e["sig"] == "uint64_t(int32_t*)":
         return ("handle_txfm64", int(m.group(2)), int(m.group(3)), 1 if m.group(4) else 0, 0)
     return None
+
+
+# what each driver enumerates (copied into the evidence; full statement in the header comments of the C sources)
+DOC = {
+    'quant_b / quant_fp':
+        'all 19 transform sizes x valid transform types (scan order) x quantizer rows from svt_av1_build_quantizer for qindex {0,1,8,32,64,128,192,254,255} (thorough: 0..255) x bit depth 8 (lowbd kernels) / 8,10 (highbd) x log_scale of the size, qm NULL (as the library) x coefficients: C forward transform of every residual pattern (+ handle_transform for 64-point), direct coefficient patterns over +-(2^bd-1)<<7, ramps around zero-bin and step boundaries; qcoeff, dqcoeff (whole allocation) and eob compared',
+    'txb_init_levels / nz_map_ctx':
+        '14 width x height pairs, coefficient ranges, levels buffer offset {0,1}; nz_map: eob alphabet (all values for 4x4), positions below eob compared (the only ones callers read)',
+    'coef_satd / coef_block_error / sum_squares_i16':
+        'every length / block size callers pass x the coefficient sources above',
+    'handle_txfm64':
+        'the 10 repack helpers on C forward-transform outputs and direct patterns; whole buffer + returned energy',
+    'full_dist32 / spatial_dist / residual_kernel':
+        'every transform / block size (spatial: also every multiple-of-4 width up to 192) x strides x offsets x all pattern pairs; full_dist32 coefficient pairs limited to energy-feasible amplitudes (a larger amplitude exposes a 32-bit add in the AVX2 accumulator that no transform output can reach)',
+}
